@@ -27,6 +27,71 @@ def call_of(state):
     return {k: v for k, v in state['last'].items()}
 
 
+def thread_share(ck, d, tier):
+    """spec/ThreadShare.tla: the shared-state steps of threads parsing with one freshly compiled asmodel model.  TLC proves the
+    design as required (get-or-create class registry, serialized optimized()), refutes the two racy designs, and the behaviours of
+    the required design - every interleaving of the steps, an edge cover of its state graph - are FORCED onto the real code with
+    the abstract state compared after every action (harness/threadreplay.py)."""
+    from ..threadreplay import dry_run, replay_threads, GRAMMARS
+
+    def cfg(work, threads, atomic=True, locked=True, props=True):
+        return (f'CONSTANT Threads = {{{", ".join(str(t) for t in range(1, threads + 1))}}}\nCONSTANT Work <- {work}\n'
+                f'CONSTANT AtomicSynth = {"TRUE" if atomic else "FALSE"}\nCONSTANT Locked = {"TRUE" if locked else "FALSE"}\n'
+                'SPECIFICATION Spec\n' + ('INVARIANT TypeOK\nINVARIANT NoError\nINVARIANT OneClassPerName\nINVARIANT BuiltOnce\n'
+                                          'INVARIANT ThreadIndependent\nPROPERTY Finishes\n' if props else '') + 'CHECK_DEADLOCK FALSE\n')
+    for work, nth in [('W4', 2), ('W3b', 2), ('W2', 3)] + ([('W4', 3)] if tier == 'thorough' else []):
+        c = os.path.join(d, f'ts_{work}_{nth}.cfg')
+        open(c, 'w').write(cfg(work, nth))
+        r = tlc.run_tlc('ThreadShareMC', cfg=c, timeout=1500)
+        ck.add_tlc(r, f'ThreadShare required design, Work={work}, {nth} threads')
+        if r.violated:
+            ck.violation({'kind': 'schedule', 'inputs': {'spec': 'ThreadShare (required design)', 'Work': work, 'threads': nth},
+                          'expected': 'NoError, OneClassPerName, BuiltOnce, ThreadIndependent, Finishes', 'observed': r.violated,
+                          'trace': r.trace[:60]}, key='tsreq' + work + str(r.violated))
+    for label, kw, inv in (('check-then-act registry', {'atomic': False}, 'NoError'), ('unserialized optimized()', {'locked': False}, 'BuiltOnce')):
+        c = os.path.join(d, 'ts_bad.cfg')
+        open(c, 'w').write(cfg('W2', 2, **kw))
+        r = tlc.run_tlc('ThreadShareMC', cfg=c, timeout=600)
+        ck.notes.setdefault('thread_designs_refuted', {})[label] = r.violated
+        if r.violated != inv:
+            raise tlc.MachineryError(f'ThreadShare: the design "{label}" is not refuted by {inv} (got {r.violated}): vacuous model')
+    # the instrumentation must see, for ONE thread, exactly the specification's sequential behaviour
+    want = {'W2': 2, 'W4': 4, 'W3b': 3}
+    for work in GRAMMARS:
+        seq = dry_run(work)
+        if seq[:3] != ['optEntry', 'optLock', 'optBuild'] or seq[-1] != 'done' or seq.count('find') != want[work]:
+            raise tlc.MachineryError(f'thread replay: a single thread passes {seq} on {work}; the specification expects optEntry optLock '
+                                     f'optBuild, {want[work]} find steps, done')
+    cases = []
+    for work, nth in [('W2', 2), ('W3b', 2)] + ([('W4', 2), ('W2', 3)] if tier == 'thorough' else []):
+        c = os.path.join(d, f'tsd_{work}_{nth}.cfg')
+        open(c, 'w').write(cfg(work, nth, props=False))
+        dot = os.path.join(d, f'tsg_{work}_{nth}')
+        tlc.run_tlc('ThreadShareMC', cfg=c, workers=1, dump_dot=dot, timeout=1500)
+        g = Graph(dot + '.dot')
+        paths = g.edge_cover_paths(is_final=lambda n: all(p in ('done', 'error') for p in g.states[n]['pc']))
+        ck.notes.setdefault('thread_graphs', []).append({'Work': work, 'threads': nth, 'states': len(g.states),
+                                                         'edges': sum(1 for _ in g.edges()), 'behaviours': len(paths)})
+        for start, path in paths:
+            cases.append({'work': work, 'nthreads': nth, 'init': g.states[start], 'path': [[a, g.states[n]] for a, n in path]})
+    if tier == 'quick' and len(cases) > 400:
+        cases = cases[ck.seed % 2::2]
+    res = pmap(replay_threads, cases, procs=16, chunk=4, recycle=200)
+    for c, o in zip(cases, res):
+        ck.count(evaluations=1, traces=1, nontrivial=1)
+        if len(ck.cov['samples']) < 5 and o['ok'] and any(a.startswith('Create') for a, _s in c['path']) and \
+                sum(1 for a, _s in c['path'] if a.startswith('Create')) >= 2:
+            ck.sample({'forced_interleaving': [a for a, _s in c['path']], 'Work': c['work'], 'replay': o})
+        if not o['ok']:
+            ck.violation({'kind': 'schedule', 'inputs': {'Work': c['work'], 'threads': c['nthreads'], 'grammar': GRAMMARS[c['work']][0],
+                                                         'text': GRAMMARS[c['work']][1], 'interleaving': [a for a, _s in c['path']]},
+                          'expected': 'the threads follow the behaviour of ThreadShare (required design): one class per type name, no '
+                                      'TypeResolutionError, the optimized grammar built once',
+                          'observed': o, 'why': o['why'], 'spec': 'ThreadShare!Next'},
+                         key='tsreplay' + c['work'] + o['why'][:60])
+    ck.notes['forced_interleavings_replayed'] = len(cases)
+
+
 def run(tier):
     ck = Check('C10', tier)
     d = tlc.scratch_dir('api')
@@ -146,7 +211,9 @@ def run(tier):
                               'expected': b['expected'], 'observed': b['observed'],
                               'why': 'a generated parser object answers differently after an earlier call', 'spec': 'ApiHistory!HistoryIndependent'},
                              key='genpair' + b['first'] + b['second'])
-        # threads on one shared model
+        # threads on one shared model: the shared-state steps, model-checked and forced onto the real code
+        thread_share(ck, d, tier)
+        # threads on one shared model, free running
         tcases = [
             {'grammar': "start = expr $ ; expr = term {('+' | '-') term} ; term = /[0-9]+/ | '(' expr ')' ;", 'threads': 4,
              'inputs': ['1', '1+2', '(1+2)-3', '1+', '((7))', '1 2', '4-(5-(6))']},
